@@ -84,6 +84,7 @@ def make_spaman_class():
                 "sensor": sensor.state if sensor is not None else None,
                 "task": task_name(),
                 "task_key": task_key(),
+                "task_obj": asyncio.current_task(),
                 "kwargs": kwargs,
             }
             self.deliveries.append(d)
